@@ -53,6 +53,21 @@ add("C16", "MC_Block.tla", "MC_Block_C16_q", ("quick", "thorough"), 900, ["ActA"
 block_cfg("MC_Block_C16_t1", "C16", ALLK, ED, 2, 2, 3, ["a", "c"], ["C16", "C02", "C03"])
 add("C16", "MC_Block.tla", "MC_Block_C16_t1", ("thorough",), 3000, ["ActA", "ActC", "ActCln", "ActExp"])
 
+# --- buffered CFB: ImplBuf (Impl.tla) vs the lazy machine, every cut, resumption at any byte ----------------------
+def buf_cfg(name, prop, bs, maxb, objs, invs):
+    txt = "CONSTANTS\n  DIRS = %s\n  BS = %d\n  MAXB = %d\n  OBJS = %s\n  PROP = \"%s\"\n" % (sset(ED), bs, maxb, sset(objs), prop)
+    txt += "SPECIFICATION Spec\nINVARIANTS %s CursorInv EmitReplay\nCHECK_DEADLOCK FALSE\n" % " ".join(invs)
+    open(os.path.join(HERE, name + ".cfg"), "w").write(txt)
+
+buf_cfg("MC_Buf_C08_q", "C08", 3, 7, ["x", "y"], ["C08", "C03", "C09"])
+add("C08", "MC_Buf.tla", "MC_Buf_C08_q", ("quick", "thorough"), 600, ["ActX", "ActY"])
+buf_cfg("MC_Buf_C03_q", "C03", 3, 7, ["x", "y"], ["C03", "C08"])
+add("C03", "MC_Buf.tla", "MC_Buf_C03_q", ("quick", "thorough"), 600, ["ActX", "ActY"])
+buf_cfg("MC_Buf_C09_q", "C09", 2, 5, ["x", "r"], ["C09", "C03"])
+add("C09", "MC_Buf.tla", "MC_Buf_C09_q", ("quick", "thorough"), 600, ["ActX", "ActR", "ActImp"])
+buf_cfg("MC_Buf_C09_t", "C09", 3, 7, ["x", "r"], ["C09", "C03"])
+add("C09", "MC_Buf.tla", "MC_Buf_C09_t", ("thorough",), 1800, ["ActX", "ActR", "ActImp"])
+
 # --- byte-level stream ciphers: ImplStream.tla (wrapper + cores) vs the position machines ------------------
 def stream_cfg(name, prop, kinds, bs, fl, depth, fields, seeks, types, usize, invs, view=True, replay=False):
     txt = "CONSTANTS\n  KINDS = %s\n  BS = %d\n  FL = %d\n  DEPTH = %d\n  FIELDS = {%s}\n  SEEKS = {%s}\n  TYPES = %s\n  USIZE = %d\n  PROP = \"%s\"\n" % (
